@@ -2,7 +2,7 @@
 # tools/benign_all.sh [mode ...] : robustness self-test - every check must give the unchanged-tree verdict on behaviour-preserving
 # rewrites of the sources (rename = every local renamed; swapcmp negif incr notzero zeronot = engine/qbrewrite.cc)
 cd "$(dirname "$0")/.." || exit 2
-MODES=${*:-rename swapcmp negif incr notzero zeronot}
+MODES=${*:-rename swapcmp negif incr notzero zeronot trace}
 rc=0
 for m in $MODES; do
   D=$(mktemp -d /tmp/qbbenign-XXXXXX)
